@@ -396,6 +396,10 @@ def plan(prop, tier):
         fams.append(("fromiter_2s", [scen.with_bounds(from_iter_g(xs), "from_iter", maxTop=5 if q else 6, maxPull=3, **two)
                                      for xs in ([1, 2], None)],
                      scen.with_bounds(from_iter_g([1, 2, 3, 4]), "from_iter", maxTop=10, maxPull=6, sinkErr=True, **two)))
+        # concat! with a Pull outstanding across a member boundary while the other subscription attaches / pulls
+        # (members that only end, so that five top-level actions stay cheap)
+        fams.append(("concat2_2s_pull", scen.with_bounds(scen.nary("concat", 2), "concat", maxData=0, maxTop=5, maxPull=1,
+                                                        allowFail=False, burst=False, **two), None))
         # flatten with emissions inside the greetings (an outer that hands out an inner and completes while the
         # sink is still being attached), listenable members
         fams.append(("flatten_2s_burst", scen.with_bounds(scen.flatten_g(2, "push", "push"), "flatten", maxData=1, maxTop=4,
